@@ -127,14 +127,54 @@ Theorem C20_tc_ignored : forall found same_q on_conn cookie_ok edns_issue rflags
 Proof. exact tc_ignored. Qed.
 Print Assumptions C20_tc_ignored.
 
-(* REFUTED for the pinned code (open finding, findings/C20.json; the source flags it with a TODO
-   in process_read): when the grouping of reads into events puts a disconnect into the same
-   read_conn_packets() loop as data (possible only after a read that filled the 65535 byte
-   buffer), that data is discarded; with the disconnect in a later event it is delivered.
-   C20_read_segmentation above therefore assumes [call_ok] (no disconnect reported). *)
-Theorem C20_data_before_disconnect_refuted :
-  exists (pa : list Z -> bool) (bytes : list Z) b1 b2,
-    run_reads pa true buf_create [[RdBytes false bytes true; RdBytes false [] false]] = Ok (b1, [], Closed) /\
-    run_reads pa true buf_create [[RdBytes false bytes false]; [RdBytes false [] false]] = Ok (b2, [ex_msg1], Closed).
-Proof. exact data_before_disconnect_refuted. Qed.
-Print Assumptions C20_data_before_disconnect_refuted.
+(* Disconnects: a connection failure (EOF, reset, error) reported in the same read event as
+   data - possible after reads that filled the buffer - is handled after that data has been
+   processed: the event delivers exactly what it delivers without the failure, only the
+   connection is closed afterwards.  (Model of the code WITH
+   fixes/C20-process-data-before-conn-error.patch; the pinned code discarded the data, which
+   was the "TODO" in process_read().)  No hypothesis on earlier events, bytes or pa. *)
+Theorem C20_data_before_disconnect : forall (pa : list Z -> bool) calls b rs,
+  ends_in_failure rs = true ->
+  run_reads pa true b (calls ++ [rs]) = closed_of (run_reads pa true b (calls ++ [strip_fail rs])).
+Proof. exact data_before_disconnect. Qed.
+Print Assumptions C20_data_before_disconnect.
+
+(* THE BUFFER ABSTRACTION IS SOUND.  Frame.v's buffer (data, offset, tag; "did ensure_space
+   reclaim?" as an input of every append) against the full ares_buf model of Dsa/Buf.v (memory
+   block, data_len, alloc_buf_len, ares_buf_ensure_space with its doubling loop, ares_buf_reclaim
+   with memmove, allocator answers, junk in fresh memory), through the reference
+   specification [bspec] both refine:  whatever the faithful buffer does on a successful
+   ares_buf_append / ares_buf_append_start+finish, Frame.buf_append does for one of the two
+   values of its reclaim input; the cursor operations (the same generated functions) refine
+   the same specification functions with the same status.  So the theorems above, which hold
+   for ALL reclaim decisions, cover the reclaim timing alloc_buf_len actually produces. *)
+From CAres.Dsa Require Buf Buf_proofs.
+From CAres.Core Require Import Frame_buf_sound.
+
+Theorem C20_buf_append_sound : forall junk ok cb b bytes cb',
+  Buf_proofs.buf_inv cb -> fwf b -> fabs b = Buf.buf_abs cb ->
+  Buf.buf_zlen bytes < Buf.BUF_ALLOC_LIMIT -> Buf.buf_zlen bytes <> 0 ->
+  Buf.buf_zlen (fdata b) + Buf.buf_zlen bytes < Buf.BUF_SIZE_MAX ->
+  Buf.buf_append junk ok cb bytes = Ok (ARES_SUCCESS, cb') ->
+  exists rc b', Frame.buf_append b rc bytes = Ok b' /\ fwf b' /\ fabs b' = Buf.buf_abs cb'.
+Proof. exact frame_append_covers. Qed.
+Print Assumptions C20_buf_append_sound.
+
+Theorem C20_buf_append_start_sound : forall junk ok cb b want bytes k cb',
+  Buf_proofs.buf_inv cb -> fwf b -> fabs b = Buf.buf_abs cb ->
+  0 < want < Buf.BUF_ALLOC_LIMIT -> Buf.buf_zlen bytes <= want ->
+  Buf.buf_zlen (fdata b) + Buf.buf_zlen bytes < Buf.BUF_SIZE_MAX ->
+  Buf.buf_append_via_start junk ok cb want bytes = Ok (1, k, cb') ->
+  exists rc b', Frame.buf_append b rc bytes = Ok b' /\ fwf b' /\ fabs b' = Buf.buf_abs cb' /\ k = Buf.buf_zlen bytes.
+Proof. exact frame_append_start_covers. Qed.
+Print Assumptions C20_buf_append_start_sound.
+
+Theorem C20_buf_consume_sound : forall b n, fwf b -> 0 <= n ->
+  exists st b', Frame.buf_consume b n = Ok (st, b') /\ fwf b' /\ (st, fabs b') = Buf.bufs_consume (fabs b) n.
+Proof. exact f_consume_refines. Qed.
+Print Assumptions C20_buf_consume_sound.
+
+Theorem C20_buf_tag_rollback_sound : forall b, fwf b ->
+  exists st b', Frame.buf_tag_rollback b = Ok (st, b') /\ fwf b' /\ (st, fabs b') = Buf.bufs_tag_rollback (fabs b).
+Proof. exact f_tag_rollback_refines. Qed.
+Print Assumptions C20_buf_tag_rollback_sound.
